@@ -454,3 +454,31 @@ func VP_C12_big_palette() {
 	}
 	vp.Cover("end")
 }
+
+// saved sections with very large palettes: 4096 positions, 1024..4096 distinct
+// states (10..12-bit indices; 11- and 12-bit data occupy the same number of
+// longs, so only the palette size can tell them apart). Every position checked
+// at its concrete index; first and last palette entries arbitrary.
+func VP_C12_withdata_huge() {
+	const L = 4096
+	npal := []int{1024, 1025, 1500, 2048, 2049, 4096}[vp.Choice(6)]
+	bits := vpCeilLog2(npal)
+	vp.SizeBound(4*L + 64)
+	vp.Unwind(L + 64)
+	pat := make([]BlocksState, npal)
+	for i := range pat {
+		pat[i] = BlocksState(100 + 3*i)
+	}
+	pat[0], pat[npal-1] = vpStateID(), vpStateID()
+	vp.Assume(pat[0] < 100 && pat[npal-1] < 100 && pat[0] != pat[npal-1])
+	vpl := 64 / bits
+	data := make([]uint64, (L+vpl-1)/vpl)
+	for i := 0; i < L; i++ {
+		data[i/vpl] |= uint64(i%npal) << uint((i%vpl)*bits)
+	}
+	c := NewStatesPaletteContainerWithData(L, data, pat)
+	for i := 0; i < L; i++ {
+		vp.Assert(c.Get(i) == pat[i%npal], "saved data read as palette[unpack(data,i)]")
+	}
+	vp.Cover("end")
+}
